@@ -528,6 +528,23 @@ def keynames(ctx: Ctx) -> None:
                     # names taken from a name list built in the enclosing function
                     expanded = set()
                     for v in used:
+                        # the key function may be built by a factory: a name list handed to the
+                        # factory stands for what the registering function passed in that place
+                        fac = k.parent if k.parent is not None and k.parent.is_func and k.parent is not f else None
+                        if fac is not None and v in fac.params:
+                            bound = None
+                            for fc, fts in repo.calls_in(f):
+                                if any(t.kind == "def" and t.ref is fac for t in fts):
+                                    i_ = fac.positional_params.index(v) if v in fac.positional_params else -1
+                                    bound = fc.args[i_] if 0 <= i_ < len(fc.args) else kwarg(fc, v)
+                            if bound is not None:
+                                if isinstance(bound, (ast.ListComp, ast.GeneratorExp)) and isinstance(bound.elt, ast.Attribute) and bound.elt.attr == "name" and isinstance(bound.generators[0].iter, ast.Name):
+                                    expanded.add(bound.generators[0].iter.id)
+                                elif isinstance(bound, ast.Name):
+                                    expanded |= _expand_var_in(repo, f, fl, at, bound.id)
+                                else:
+                                    expanded |= {x.id for x in ast.walk(bound) if isinstance(x, ast.Name)}
+                                continue
                         expanded |= _expand_var_in(repo, f, fl, at, v)
                     ok = bool(expanded) and expanded <= passed | {"self"} and (("self" not in expanded) or "self" in passed)
                     ctx.ob(
